@@ -221,35 +221,57 @@ Proof.
 Qed.
 
 (* what the controller lets through *)
-Lemma accepted_context : forall q sh c, prelude_of q = PRun sh c ->
-  match sh with
-  | ShRate | ShAggJson => 0 < f_step (p_fix c) /\ 0 < f_dur (p_fix c) /\ f_from (p_fix c) <= f_to (p_fix c)
-  | _ => True
-  end.
+Lemma max_elems_val : max_elems = 134217728.
+Proof. reflexivity. Qed.
+
+(* what the planner lets through satisfies the whole guard: positive step and range, from <= to, at most 11,001 points
+   per series and 100,000 range windows *)
+Lemma plan_guard : forall sh0 q from_s to_s ms lim sh c, 0 < ms -> from_s <= to_s ->
+  plan sh0 q from_s to_s ms lim = PRun sh c -> shape_guard sh c = true.
+Proof.
+  intros sh0 q from_s to_s ms lim sh c Hms Hft Hp. unfold plan in Hp.
+  destruct (q_dur_s q <=? 0) eqn:Ed.
+  - destruct sh0; try discriminate; injection Hp as <- <-; reflexivity.
+  - apply Z.leb_gt in Ed. cbv zeta in Hp. cbn [f_to f_from f_step] in Hp.
+    pose proof max_elems_val as Hmax. unfold max_points, max_windows in Hp.
+    destruct sh0.
+    + destruct (q_query_err q); [discriminate|]. injection Hp as <- <-. reflexivity.
+    + destruct (q_query_err q); [discriminate|]. injection Hp as <- <-. reflexivity.
+    + destruct (11000 <? _) eqn:Ep in Hp; [discriminate|]. apply Z.ltb_ge in Ep.
+      destruct (q_query_err q); [discriminate|]. injection Hp as <- <-.
+      unfold shape_guard, fix_guard. cbn [p_fix f_to f_from f_step f_dur].
+      rewrite !andb_true_iff. split; [split; [split|]|].
+      * apply Z.ltb_lt. lia.
+      * apply Z.ltb_lt. lia.
+      * apply Z.leb_le. lia.
+      * apply Z.leb_le. lia.
+    + destruct (11000 <? _) eqn:Ep in Hp; [discriminate|]. apply Z.ltb_ge in Ep.
+      destruct (100000 <? _) eqn:Ew in Hp; [discriminate|]. apply Z.ltb_ge in Ew.
+      destruct (q_query_err q); [discriminate|]. injection Hp as <- <-.
+      unfold shape_guard, fix_guard. cbn [p_fix p_slen f_to f_from f_step f_dur].
+      rewrite !andb_true_iff. split; [split; [split; [split|]|]|].
+      * apply Z.ltb_lt. lia.
+      * apply Z.ltb_lt. lia.
+      * apply Z.leb_le. lia.
+      * apply Z.leb_le. lia.
+      * apply Z.leb_le. lia.
+Qed.
+
+Lemma accepted_guard : forall q sh c, prelude_of q = PRun sh c -> shape_guard sh c = true.
 Proof.
   intros q sh c H. unfold prelude_of in H.
   destruct (negb (q_has_query q)); [discriminate|].
-  assert (Hplan : forall sh0 from_s to_s ms lim, 0 < ms -> from_s <= to_s -> plan sh0 q from_s to_s ms lim = PRun sh c ->
-            match sh with
-            | ShRate | ShAggJson => 0 < f_step (p_fix c) /\ 0 < f_dur (p_fix c) /\ f_from (p_fix c) <= f_to (p_fix c)
-            | _ => True
-            end).
-  { intros sh0 from_s to_s ms lim Hms Hft Hp. unfold plan in Hp.
-    destruct (q_dur_s q <=? 0) eqn:Ed.
-    - destruct sh0; try discriminate; injection Hp as <- <-; exact I.
-    - apply Z.leb_gt in Ed.
-      destruct sh0; repeat match type of Hp with (if ?b then _ else _) = _ => destruct b end; try discriminate;
-        injection Hp as <- <-; simpl; try exact I; lia. }
   destruct (q_instant q).
   - destruct (q_end q) eqn:Ee; try discriminate;
       destruct (step_ms (q_step q)) as [ms|]; try discriminate;
       destruct (ms <=? 0) eqn:Em; try discriminate; apply Z.leb_gt in Em;
-      destruct (q_shape q) as [sh0|]; try discriminate; destruct (q_boot_fail q); try discriminate; eapply Hplan; eauto; lia.
+      destruct (q_shape q) as [sh0|]; try discriminate; destruct (q_boot_fail q); try discriminate;
+      eapply plan_guard; eauto; lia.
   - destruct (negb (is_num (q_start q)) || negb (is_num (q_end q))); [discriminate|].
     destruct (step_ms (q_step q)) as [ms|]; try discriminate.
     destruct (ms <=? 0) eqn:Em; try discriminate. apply Z.leb_gt in Em.
     destruct (num_of (q_end q) <? num_of (q_start q)) eqn:Er; try discriminate. apply Z.ltb_ge in Er.
-    destruct (q_shape q) as [sh0|]; try discriminate. destruct (q_boot_fail q); try discriminate. eapply Hplan; eauto.
+    destruct (q_shape q) as [sh0|]; try discriminate. destruct (q_boot_fail q); try discriminate. eapply plan_guard; eauto.
 Qed.
 
 (* ------------------------------------------------------------------ instances of the generic theorems *)
@@ -262,6 +284,13 @@ Lemma read_chain_terminates : forall sh c rows, shape_guard sh c = true ->
 Proof.
   intros sh c rows Hg. apply chain_terminates; auto using stages_good, stages_nofault, stages_fresh.
 Qed.
+
+(* for EVERY request the controller and the planner accept, and every result set: no crash, no leak *)
+Lemma accepted_chain_terminates : forall q sh c rows, prelude_of q = PRun sh c ->
+  let c0 := init_config (map MRow rows) (stages_of sh c) in
+  Acc (fun c' c1 : configT => step c1 c') c0 /\
+  forall cf, star c0 cf -> crashed cf = false /\ (quiescent cf -> all_done (cells cf)).
+Proof. intros q sh c rows H. apply read_chain_terminates. eapply accepted_guard. exact H. Qed.
 
 Lemma read_chain_no_leak : forall sh c rows,
   let c0 := init_config (map MRow rows) (stages_of sh c) in
